@@ -1935,12 +1935,6 @@ static int _GD_AddAlias(DIRFILE *restrict D, const char *restrict parent,
     GD_SET_RETURN_ERROR(D, GD_E_ACCMODE, 0, NULL, 0, NULL);
   else if (fragment_index < 0 || fragment_index >= D->n_fragment)
     GD_SET_RETURN_ERROR(D, GD_E_BAD_INDEX, 0, NULL, fragment_index, NULL);
-  else if (parent == NULL &&
-      (D->fragment[fragment_index].protection & GD_PROTECT_FORMAT))
-  {
-    GD_SET_RETURN_ERROR(D, GD_E_PROTECTED, GD_E_PROTECTED_FORMAT, NULL, 0,
-        D->fragment[fragment_index].cname);
-  }
 
   if (parent != NULL) {
     /* look for parent */
@@ -1985,6 +1979,13 @@ static int _GD_AddAlias(DIRFILE *restrict D, const char *restrict parent,
     /* a subfield lives in its parent's fragment */
     if (P)
       fragment_index = P->fragment_index;
+
+    /* the fragment the alias actually lands in is the one to check */
+    if (D->fragment[fragment_index].protection & GD_PROTECT_FORMAT) {
+      _GD_SetError(D, GD_E_PROTECTED, GD_E_PROTECTED_FORMAT, NULL, 0,
+          D->fragment[fragment_index].cname);
+      goto add_alias_error;
+    }
   }
 
   /* Figure out the length of the attached namespace in the supplied field
